@@ -597,6 +597,32 @@ theorem awaited_settles (u : Nat) (sched : List (Tid × Act)) :
 theorem need_le_three (p : PC) : need p ≤ 3 := by cases p <;> simp [need]
 
 
+/-! ## Wrapping a blocking built-in in a safepoint cannot deadlock (repair of K16b)
+
+A thread inside a primitive's safepoint (`inSafe prim`: blocked in `channel/recv`, `thread-join!`, …) holds neither the heap
+lock nor the `threads` mutex, and a stopper that reaches its entry finds it published and does not wait for it: publishing
+a blocked thread takes nothing away from the others.  (Source side: `C16.blocking_paths_publish(_full)` — which call paths
+publish; `C16.heap_lock_inside_safepoint`, `C16.spin_holds_no_unpublished_lock` — which locks exist around them.) -/
+
+theorem prim_holds_no_lock {s : State} (h : Inv s) {u : Nat} (hu : u < s.n) (hp : (s.th u).pc = .inSafe .prim) :
+    s.hlock ≠ some u ∧ s.tlock ≠ some u := by
+  have hT := h.thr u hu
+  have hH : holdsH (s.th u).pc = false := by simp [hp, holdsH]
+  have hne : s.hlock ≠ some u := by
+    have := hT.hl; rw [hH] at this; simpa using this.symm
+  refine ⟨hne, ?_⟩
+  intro ht
+  have := h.tl
+  rw [ht] at this
+  split at this
+  · exact hne this.symm
+  · cases this
+
+/-- A stopper spinning on the entry of a thread that is blocked inside a primitive moves on at once. -/
+theorem blocked_in_prim_unblocks_stopper {s : State} (h : Inv s) {a : Nat} (ha : s.hlock = some a) {o : Op} {ph i : Nat}
+    (hpc : (s.th a).pc = .spin o ph i) (hp : i < s.n → (s.th i).pc = .inSafe .prim) : moves s a .step :=
+  settled_unblocks h ha hpc (fun hi _ => by rw [hp hi]; rfl)
+
 /-! ## Non-vacuity (the K15a interleaving `C15.R.exitRaceR`, two threads) -/
 
 /-- The round of `exitRaceR` from the state in which thread 0 has just entered `stop_threads`: the stopper changes its
